@@ -239,6 +239,19 @@ def interpolation_cases():
                         probs.append(f"{meth}({q!r}) {where} the measured range answered {v} instead of being refused")
                     except Exception:
                         pass
+                # with a fill rule the query is answered: a number (0 and 0.0 among them), a pair, 'extrapolate'
+                for fill in (0, 0.0, 7.5, (0, 0), (0.0, 9.0), 'extrapolate'):
+                    for q, where in ((xs.max() * 1.5, 'above'), (xs.min() * 0.5, 'below')):
+                        try:
+                            v = float(numpy.asarray(f(q, branch=br, interp_fill=fill), dtype=float).ravel()[0])
+                        except Exception as exc:
+                            probs.append(f"{meth}({q!r}, interp_fill={fill!r}) {where} the measured range was refused ({type(exc).__name__}) although a fill rule was given")
+                            continue
+                        if fill != 'extrapolate':
+                            # (a pair: value below the lowest x, value above the highest x)
+                            wantf = (fill[1] if where == 'above' else fill[0]) if isinstance(fill, tuple) else fill
+                            if v != float(wantf):
+                                probs.append(f"{meth}({q!r}, interp_fill={fill!r}) {where} the measured range = {v}, the fill rule says {wantf}")
             # against a permanently converted copy (interior points only: end points are subject to the unit round trip's last bit)
             try:
                 cp = _copy(iso)
